@@ -824,7 +824,9 @@ func (s *state) evalCall(dot, fun reflect.Value, node parse.Node, name string, a
 	}
 
 	if name == "__freeze" {
-		s.boundBlocks = append(s.boundBlocks, &boundBlock{name: argv[0].String(), scope: s})
+		// frames are copies of each other and share the backing array of this list: never append in place, a
+		// sibling copy (the block content of an enclosing call, run once per placement) would overwrite the entry
+		s.boundBlocks = append(s.boundBlocks[:len(s.boundBlocks):len(s.boundBlocks)], &boundBlock{name: argv[0].String(), scope: s})
 		return reflect.ValueOf(Nil{})
 	}
 
